@@ -155,12 +155,20 @@ Section Sat.
   Definition ll_name (r : rtree) : res str :=
     match first_ident r with Some s => Ok s | None => Panic 10%N end.
 
+  (* the version text of a VERSION node: its IDENT and COLON tokens joined ("1:2.0" is lexed as
+     IDENT COLON IDENT); None when there is none *)
+  Definition version_string (vn : rtree) : option str :=
+    match concat (map text (filter (fun e => is_tok_of IDENT e || is_tok_of COLON e) (children vn))) with
+    | [] => None
+    | s => Some s
+    end.
+
   (* Relation::version : two unwrap()s *)
   Definition ll_version (r : rtree) : res (option (vop * V)) :=
     match find (is_node_of VERSION) (children r) with
     | None => Ok None
     | Some vn =>
-      match find (is_node_of CONSTRAINT) (children vn), first_ident vn with
+      match find (is_node_of CONSTRAINT) (children vn), version_string vn with
       | Some cn, Some vt =>
           match parse_vop (text cn) with
           | None => Panic 11%N                      (* constraint.to_string().parse().unwrap() *)
